@@ -2380,7 +2380,7 @@ macro_rules! real_success_harness { ($name:ident, $kind:expr, $other:expr, $resp
     fn $name() { real_success_body($kind, $other, $resp); }
 } }
 
-// @gv props=C01,C06 tier=quick required=yes fns=ProtocolState::complete_operation_as_failure,complete_operation_with_error,ProtocolState::apply_ackable_completion,ProtocolState::apply_disconnect_completion
+// @gv props=C06,C01 tier=quick required=yes fns=ProtocolState::complete_operation_as_failure,complete_operation_with_error,ProtocolState::apply_ackable_completion,ProtocolState::apply_disconnect_completion
 // @gv bounds="REAL completion code and real boxed result callbacks: a written QoS1 PUBLISH (symbolic id p1) and a bystander SUBSCRIBE (p2) await acks; engine Connected; the publish is failed (offline-policy error), then failed again (late timeout / reset)"
 // @gv timeout=1200 mem=11 unwind=8 stubs="std::fmt::format -> stub_format"
 real_fail_harness!(c01_real_fail_q1, 1, 3);
@@ -2397,7 +2397,7 @@ real_fail_harness!(c01_real_fail_q2, 2, 4);
 // @gv timeout=1200 mem=11 unwind=8 stubs="std::fmt::format -> stub_format"
 real_fail_harness!(c01_real_fail_unsub, 4, 1);
 
-// @gv props=C01,C06 tier=quick required=yes fns=ProtocolState::complete_operation_as_success,complete_operation_with_result,ProtocolState::apply_ackable_completion,ProtocolState::apply_ping_extension_on_operation_success,ProtocolState::apply_disconnect_completion
+// @gv props=C06,C01 tier=quick required=yes fns=ProtocolState::complete_operation_as_success,complete_operation_with_result,ProtocolState::apply_ackable_completion,ProtocolState::apply_ping_extension_on_operation_success,ProtocolState::apply_disconnect_completion
 // @gv bounds="REAL completion code and real boxed result callbacks: a written QoS1 PUBLISH (symbolic id p1) and a bystander SUBSCRIBE (p2); resolved with its PUBACK; then a late failure and a late success for the same operation"
 // @gv timeout=1200 mem=11 unwind=8 stubs="std::fmt::format -> stub_format"
 real_success_harness!(c01_real_ok_q1_puback, 1, 3, 1);
